@@ -140,6 +140,7 @@ func genImage(c *core.Chooser, pd *spec.PDU, rich bool) (*spec.Msg, []byte, int)
 	if rich {
 		o.MaxDests = 12
 	}
+	o.Shape = c.Pick(10, 1, 1)
 	m := spec.Gen(c, pd, o)
 	// make submit / deliver bodies interesting for the content parsers
 	for _, f := range pd.Fields {
